@@ -77,16 +77,18 @@ def compare_table(paths: list[Path], bitnames: dict[int, str], oracle: Callable[
     rows = 0
     for p in paths:
         val = pretty_assign(p, bitnames, alias)
+        extra = []
         if known_atoms is not None:
-            for a in val:
-                if a not in known_atoms and '&' not in a:
-                    raise AnalysisError(f'{where}: unrecognised condition `{a}` in a decision function')
+            # a condition outside the vocabulary of the specification: the specified result must hold whatever its value, so the row is
+            # judged on the known atoms alone (a row whose result needs the extra condition disagrees with the specification)
+            extra = [a for a in val if a not in known_atoms and '&' not in a]
         rows += 1
         got = project(p)
-        exp = oracle_values(oracle, val, exclusive=exclusive)
+        exp = oracle_values(oracle, {k: v for k, v in val.items() if k not in extra}, exclusive=exclusive)
         if exp != [got]:
             desc = ', '.join(f'{k}={int(v)}' for k, v in sorted(val.items()))
-            return False, f'row [{desc}]: computed {got!r}, specification {" or ".join(map(repr, exp))}', rows
+            note = f' (the result depends on `{extra[0]}`, which the specification does not mention)' if extra else ''
+            return False, f'row [{desc}]: computed {got!r}, specification {" or ".join(map(repr, exp))}{note}', rows
     return True, '', rows
 
 
